@@ -181,7 +181,10 @@ def run_case(spec, ctx):
             try:
                 with warnings.catch_warnings():
                     warnings.simplefilter('ignore')
-                    m.soc_solve(C.solver(sname), degree=d, display=False)
+                    # default barrier tolerances are amplified by the 2**degree squarings of the
+                    # approximation; Gurobi is asked for a tight one (ECOS takes no parameters)
+                    m.soc_solve(C.solver(sname), degree=d, display=False,
+                                params={'BarQCPConvTol': 1e-10} if sname == 'grb' else {})
             except Exception as e:
                 if 'license' in str(e):
                     ctx.count('gurobi_size_limit')
@@ -196,6 +199,13 @@ def run_case(spec, ctx):
                 prev = None
                 continue
             val = float(m.get())
+            # the solver's vector must be feasible for the approximating program, otherwise the
+            # number says nothing about the approximation (observed: ECOS 'optimal' at degree 8
+            # with rows violated by 0.57)
+            if C.audit_solution(f.to_socp(d), m.solution.x, tol=1e-5):
+                ctx.count('soc_solver_vector_infeasible:' + sname)
+                prev = None
+                continue
             sx = np.asarray(m.solution.x, float)[:n0]
             ap_exp = exponents(f, sx)
             if not (in_range and np.all(np.abs(ap_exp) <= 4.0)):
